@@ -142,6 +142,9 @@ mod utils;
 mod errors;
 mod execution;
 
+#[cfg(feature = "verif")]
+pub mod verif;
+
 pub use errors::PriceLevelError;
 pub use execution::{MatchResult, Transaction};
 pub use orders::DEFAULT_RESERVE_REPLENISH_AMOUNT;
@@ -149,3 +152,8 @@ pub use orders::PegReferenceType;
 pub use orders::{OrderId, OrderType, OrderUpdate, Side, TimeInForce};
 pub use price_level::{OrderQueue, PriceLevel, PriceLevelData, PriceLevelSnapshot};
 pub use utils::{UuidGenerator, setup_logger};
+
+#[cfg(feature = "verif")]
+pub use execution::TransactionList;
+#[cfg(feature = "verif")]
+pub use price_level::{PriceLevelSnapshotPackage, PriceLevelStatistics};
